@@ -9,7 +9,7 @@ def T(what):
 CHECKS = {
  "C01": dict(level="exploration", design="3/C01", technique=DIFF + " (differential oracle over the whole row stream; part of the case space is an enumerated program grammar)", note=NOTE,
    text=T("The crate's complete row stream (line, input values, expected values, end) is compared with the stream prescribed by an independent reference interpreter on 150k (quick) / 2M (thorough) generated programs per build profile, plus the complete enumeration of a loop/while/repeat/let program grammar of depth <= 2 (100 338 programs in quick, 4.4M in thorough) for which vars() is compared as well.")),
- "C02": dict(level="exploration", design="3/C02", technique="runtime monitoring: online protocol checker over the recorded driver-call log, evaluated after every next()", note=NOTE,
+ "C02": dict(level="exploration", design="3/C02", technique="runtime monitoring: online protocol checker over the recorded driver-call log, evaluated after every next(); metamorphic re-runs through iterator adaptors (nth, skip, step_by, count, last, collect, fold, find ...) and through a driver type that leaves write_input to the trait default", note=NOTE,
    text=T("A recording TestDriver logs every call before answering; after every step an online oracle checks one-call-per-row, verbatim inputs, call kind (output-reading vs write_input), laziness, silence after End and full accounting of the log, with and without injected driver errors and with both driver variants.")),
  "C03": dict(level="exploration", design="3/C03", technique="runtime monitoring: per-row attribution oracle over unique device answers + exhaustive verdict table", note=NOTE,
    text=T("For every checked row the oracle recomputes each reported output from the recorded answer of that very call (unique values per call and signal, random subset/permutation layouts, Z/X/boundary values) and checks check()/is_checked()/failing_outputs() against the stated X/Z rules; the 37x37 value table of check() is enumerated.")),
@@ -27,25 +27,25 @@ CHECKS = {
    text=T("Hazard-seeded accepted programs (zero divisors, MIN/-1, overflow, wild shift counts, random(<2), signExt, maybe-unassigned variables, 63/64-bit signals, Z/X answers, driver errors) are run dynamically and statically under catch_unwind; no stage may panic and each hazard the reference reaches must be an error item.")),
  "C14": dict(level="exploration", design="3/C14", technique=DIFF + " restricted to virtual-signal entries, with same-named variables in scope", note=NOTE,
    text=T("Declared virtual signals (1-4, placed anywhere) are checked in every checked row against the reference's evaluation of the declared expression over that call's unique answers with variables invisible; Z/X operands must give an error item; vars() must survive the swap.")),
- "C17": dict(level="exploration", design="3/C17", technique="runtime monitoring: hook-recorded draw log checked by replay (accounting), range, reset-prefix and same-seed oracles", note="Needs the verif-hooks feature (seed override + draw log). " + NOTE,
+ "C17": dict(level="exploration", design="3/C17", technique="runtime monitoring: hook-recorded draw log checked by replay (accounting), range, reset-prefix, same-seed and static-run oracles", note="Needs the verif-hooks feature (seed override + draw log). " + NOTE,
    text=T("Every generator call made by random(n) is logged by a hook; the reference replays the log (each evaluation must find exactly its own draw, the log must be consumed exactly, rows must equal those of the literal-substituted program), ranges, reset replay and same-seed determinism are checked.")),
  "C09": dict(level="exploration", design="3/C09", technique="runtime monitoring: catch_unwind + span/render oracle over hostile strings (token soup, mutated programs, every-boundary truncation, structured edge cases)", note="Oracle needs no model: it checks the returned value itself (span bounds, char boundaries, renderability). " + NOTE,
    text=T("Hundreds of thousands of hostile strings are parsed under catch_unwind; any panic, any error span outside the text or off a char boundary, and any failure to render the diagnostic with miette is reported with the exact string.")),
  "C11": dict(level="exploration", design="3/C11", technique="runtime monitoring: independent fits() judgement vs with_signals verdict on perturbed pairs, then full iteration of every accepted pair against the reference", note="Trusted: fits() in harness/src/scope.rs (written from the statement of C11). " + NOTE,
    text=T("Fitting pairs are perturbed (signal list edits, direction changes, C in arbitrary columns, reads of inputs/virtual/undeclared names, scoping traps); with_signals must accept exactly the pairs the independent judgement says fit, never panic, and every accepted pair must iterate to the end in agreement with the reference.")),
  "C12": dict(level="exploration", design="3/C12", technique="runtime monitoring: mutation-based negative oracle (invalid by construction AND rejected by an independent recogniser => crate must return Err)", note="Trusted: refparse.rs recogniser and reflex.rs tokenizer. " + NOTE,
-   text=T("Every applicable single grammar-breaking edit (11 operators, 3 endings, LF/CRLF) of generated valid programs is fed to the parser; a mutant confirmed invalid by an independent recogniser must be rejected.")),
+   text=T("Every applicable single grammar-breaking edit (16 operators plus duplicated names in wide headers and duplicated long names, 3 endings, LF/CRLF) of generated valid programs is fed to the parser; a mutant confirmed invalid by an independent recogniser must be rejected.")),
  "C13": dict(level="fault_enumeration", design="3/C13", technique="runtime monitoring with per-case fault enumeration: Err at every call index, every layout-deviation kind at every checked call, compared item by item with the recorded fault-free run", note=NOTE,
    text=T("For each sampled case the fault-free history is recorded, then every call index x driver error and every checked call x {drop, add unknown, add input, duplicate, swap, substitute} is executed; the prefix must equal the fault-free run, the owning item must be the right kind of error carrying the injected identity, and no returned row may misattribute a value.")),
- "C15": dict(level="exploration", design="3/C15", technique="runtime monitoring: repeated parses, repeated and interleaved iterators under explicit schedules, static-vs-dynamic projection against 4 devices, cross-process digest comparison", note="Programs using random run with the seed pinned through the verif-hooks feature. " + NOTE,
+ "C15": dict(level="exploration", design="3/C15", technique="runtime monitoring: repeated parses, repeated / abandoned / interleaved iterators under explicit schedules, history independence (a second device, a public field changed after iteration), static-vs-dynamic projection against 5 devices incl. a refusing one, cross-process digest comparison", note="Programs using random run with the seed pinned through the verif-hooks feature. " + NOTE,
    text=T("Per case: 6 parses must give equal TestCases with equal signal order; 3 iterations and 2-4 interleaved iterators (round-robin, sequential, PRNG schedules) must give identical streams; try_iter_static must succeed iff the model reads no outputs and then equal the projection of 4 dynamic runs; digests are compared between two separate processes.")),
- "C16": dict(level="exploration", design="3/C16", technique="runtime monitoring: description-as-ground-truth round trip through generated .dig XML + totality under document corruption (catch_unwind)", note="Trusted: xmlgen.rs renderer and the expectation function in monitors/digfile.rs (written from the statement of C16). " + NOTE,
+ "C16": dict(level="exploration", design="3/C16", technique="runtime monitoring: description-as-ground-truth round trip through generated .dig XML (parse, FromStr, open incl. a re-written path) + totality under document corruption (catch_unwind)", note="Trusted: xmlgen.rs renderer and the expectation function in monitors/digfile.rs (written from the statement of C16). " + NOTE,
    text=T("Generated circuit descriptions are rendered to .dig XML in varied styles and must be recovered exactly (signals as a multiset, bidirectional inference rule, tests verbatim in order, load_test / load_test_by_name equivalences and error cases); six corruptions per document and truncations of the repo fixtures must never panic.")),
  "C19": dict(level="exploration", design="3/C19", technique=DIFF + " restricted to DataRow.line, with the printer's recorded line numbers as ground truth; also through .dig documents and the static iterator", note=NOTE,
    text=T("The printer records the line of every row item under hostile layouts (leading blank lines, comment and blank lines, CRLF/mixed endings, no trailing newline); every yielded row must report the line of the item the reference says produced it, also when the test is loaded from a generated .dig document or iterated statically.")),
- "C20": dict(level="exploration", design="3/C20", technique="runtime monitoring: metamorphic oracle over certified layout-only rewrites (token sequence re-checked by an independent tokenizer)", note="Trusted: reflex.rs tokenizer certifies that a rewrite keeps the token sequence. " + NOTE,
+ "C20": dict(level="exploration", design="3/C20", technique="runtime monitoring: metamorphic oracle over certified layout-only rewrites (token sequence re-checked by an independent tokenizer) and over radix families of one number", note="Trusted: reflex.rs tokenizer certifies that a rewrite keeps the token sequence. " + NOTE,
    text=T("Each base text is re-laid-out (blank runs, certified blank deletion, comments, inserted lines, CRLF, literal radix) and both texts are run against the same device; verdicts and every item must agree, lines shifted by exactly the inserted lines.")),
- "C18": dict(level="exploration", design="3/C18", technique=DIFF + " on vars() sampled after every yielded row", note=NOTE,
+ "C18": dict(level="exploration", design="3/C18", technique=DIFF + " on vars() sampled after every yielded row, plus a text-only scope oracle where the reference abstains", note=NOTE,
    text=T("vars() is sampled after every row of deeply nested, heavily shadowing programs and must equal the flattened frame stack of the reference at the moment the row's statement was evaluated.")),
 }
 ALL = ["C%02d" % i for i in range(1, 21)]
